@@ -353,6 +353,73 @@ func runC10(c *Ctx) {
 		}
 	}
 
+	// ---- O5: a value that is nil on some path (a merge with a nil constant) is not handed, unguarded, to a function
+	// that dereferences the corresponding parameter without testing it
+	nNilPhi := 0
+	for _, fn := range p.AllFuncs {
+		if isTestdataOrMock(fn) || !strings.HasPrefix(relPkg(funcPkgPath(fn)), "pkg/scheduler") {
+			continue
+		}
+		for _, b := range fn.Blocks {
+			for _, in := range b.Instrs {
+				cc, ok := in.(ssa.CallInstruction)
+				if !ok {
+					continue
+				}
+				cal := calleeOf(cc)
+				if cal == nil || len(cal.Blocks) == 0 || !hasModPrefix(cal) {
+					continue
+				}
+				for i, a := range cc.Common().Args {
+					phi, isPhi := a.(*ssa.Phi)
+					if !isPhi || i >= len(cal.Params) {
+						continue
+					}
+					if _, isPtr := phi.Type().Underlying().(*types.Pointer); !isPtr {
+						continue
+					}
+					// a nil that arrives from a branch (not the initial value of a loop-carried variable: whether a loop
+					// over an API list can run zero times is a different question) and that is compatible with what
+					// is known at the call
+					if lh := loopHeaderOf(phi.Block()); lh == phi.Block() {
+						continue
+					}
+					hasNil := false
+					for ei, e := range phi.Edges {
+						k, isC := e.(*ssa.Const)
+						if !isC || !k.IsNil() {
+							continue
+						}
+						fs := fx.FactsAt(in).clone()
+						fs.addAll(fx.blockFacts(fn, 0)[phi.Block().Preds[ei]])
+						fs.addAll(fx.edgeFacts(phi.Block().Preds[ei], phi.Block(), 0))
+						if !fs.Bottom {
+							hasNil = true
+						}
+					}
+					if !hasNil {
+						continue
+					}
+					nNilPhi++
+					if !(derefsParamUnconditionally(cal, cal.Params[i]) || derefsParamUnguarded(cal, cal.Params[i])) {
+						continue
+					}
+					// guarded at the call site?
+					pt := termOf(phi).String()
+					_, guarded := fx.FactsAt(in).find(func(f Fact) bool {
+						return factNilTerm(f, false, func(t *Term) bool { return t.String() == pt })
+					})
+					if fx.FactsAt(in).Bottom {
+						guarded = true
+					}
+					c.Analysed(funcKey(fn))
+					c.Check(guarded, "O5", "NILFLOW", fmt.Sprintf("%s: possibly-nil %s passed to %s", funcKey(fn), phi.Comment, cal.Name()), instrPos(in), "argument tested before the call", fmt.Sprintf("the value is nil on one incoming path and %s dereferences it without a test: the scheduling cycle panics when that path is taken", funcKey(cal)))
+				}
+			}
+		}
+	}
+	c.Hold("O5", "NILFLOW", fmt.Sprintf("%d call arguments that merge with a nil constant examined", nNilPhi), 0, "only those whose callee dereferences the parameter unguarded are reported")
+
 	// ---- O4: sub-group minimums
 	nps := p.Func(pkgSubGroup, "", "NewPodSet")
 	sma := p.Func(pkgSubGroup, "PodSet", "SetMinAvailable")
